@@ -25,6 +25,7 @@ EXPLANATION = (
     ' Round 4: decorators of matrix factories are folded (each special-case answer `if p == c: return E` must be the closed form at c, same shape); an unrecognised decorator is undecided.'
     ' Round 5: special answers inside a factory (`if p == c: return E`) equal the closed form at c; parameter reductions through a helper must be periods of the closed form; the prototype passes parameters as given; factories do not return module-level mutable matrices; a base gate is its own dagger only under its flag (path-sensitive, shared with C07-D6).'
     ' Round 6: (D8) stale loop variables.'
+    ' Round 7: (D4) no matrix factory is wrapped in a functools cache (module-level aliases followed): a cached factory hands every caller the same mutable matrix.'
 )
 RULE_TEXT = "instances = the 27 gate-table entries x {table, dimension, self-adjoint flag, computability, unitarity}, 10 group-law gates x {additivity, zero}, 9 fixed relations; exhaustive over the table, symbolic (normal-form) in the parameters"
 ASSUMPTIONS = [
